@@ -64,6 +64,8 @@ def run(tier):
                    "cuttail": kind == "rio" and i % 2 == 1,
                    # the read options of the table reader: verify on load (default) / on every read / never
                    "hashmode": ["", "read", "read", "none"][(i // 4 + i) % 4] if kind == "sst" else "",
+                   # every third table execution runs against a STACKED reader over two tables
+                   "stack": kind == "sst" and i % 3 == 1,
                    # records longer than the 4 KiB window of SeekNext in some executions (seeks that start inside a record scan several windows)
                    "recsize": 6000 if kind == "rio" and i % 4 in (0, 3) else 0}
             if inp["recsize"]:
